@@ -245,6 +245,8 @@ def main(argv=None):
                         "property": pid, "obligation": oid, "function": c.func,
                         "counter_model": f["model"], "symbolic_outcome": f["outcome"],
                         "replay_on_real_code": rep,
+                        "replay_spec": {"module": r["module"], "contract": cname,
+                                        "case": r["case"], "values": f["model"]},
                         "how_to_rerun": "cd /verif && echo '%s' | PYTHONPATH=/repo:/verif "
                                         ".venv/bin/python -m pyvc.replay" % json.dumps({
                                             "module": r["module"], "contract": cname,
@@ -315,6 +317,8 @@ def main(argv=None):
                                         + (" (the obligation was DISCHARGED symbolically: engine "
                                            "divergence)" if obligations.get(oid) == "discharged" else ""),
                             "failing_input": fl["values"], "replay_on_real_code": fl,
+                            "replay_spec": {"module": m, "contract": cn, "case": cr["case"],
+                                            "values": fl["values"]},
                             "how_to_rerun": "cd /verif && echo '%s' | PYTHONPATH=/repo:/verif "
                                             ".venv/bin/python -m pyvc.replay" % json.dumps({
                                                 "module": m, "contract": cn, "case": cr["case"],
@@ -348,6 +352,8 @@ def main(argv=None):
                         "found_by": "bounded stand-in (the changed code is outside the symbolic "
                                     "engine's reach: %s)" % r["error"][:300],
                         "failing_input": fl["values"], "replay_on_real_code": fl,
+                        "replay_spec": {"module": r["module"], "contract": cname,
+                                        "case": r["case"], "values": fl["values"]},
                         "how_to_rerun": "cd /verif && echo '%s' | PYTHONPATH=/repo:/verif "
                                         ".venv/bin/python -m pyvc.replay" % json.dumps({
                                             "module": r["module"], "contract": cname,
@@ -393,8 +399,11 @@ def main(argv=None):
         if not cur_ids and not standin_results:
             baseline_problem = "zero obligations generated"
 
-    n_ob = len([o for o in obligations if not o.endswith("::*")])
-    n_dis = len([o for o, s in obligations.items() if s == "discharged"])
+    # obligations matched by a listed known finding are reported apart: they are expected to fail on
+    # this tree and are neither counted as obligations of the claim nor as discharged
+    kf_obs = {o for o in obligations if known_match(known, pid, o)}
+    n_ob = len([o for o in obligations if not o.endswith("::*") and o not in kf_obs])
+    n_dis = len([o for o, s in obligations.items() if s == "discharged" and o not in kf_obs])
     # known-finding obligations count as not discharged
     wall = time.time() - t_start
 
@@ -527,6 +536,8 @@ def write_evidence(pid, tier, seed, cs, results, obligations, n_ob, n_dis, stand
         "obligation_status": {k: sum(1 for v in obligations.values() if v == k)
                               for k in sorted(set(obligations.values()))},
         "known_findings_seen": [k[0] for k in dedup(known_seen)],
+        "known_finding_obligations_excluded_from_the_count": sorted(
+            o for o in obligations if known_match(load_known(), pid, o))[:40],
         "undecided": undecided[:20],
         "checker_errors": crashes[:20],
         "standins": [{k: v for k, v in s.items() if k not in ("failures", "samples")}
